@@ -266,6 +266,22 @@ def check(ctx):
     mg = mod.func("merge")
     ok = bool(find("result: dict = {}", mg) or find("result = {}", mg)) and any(isinstance(l, ast.For) and eqv(l.iter, "dicts") and bool(find("update(result, d)", l)) for l in walk_no_nested(mg)) and (all(eqv(r.value, "result") for r in returns(mg)) and bool(returns(mg)))
     ctx.ob("ALG.merge", mg, "merge folds update(result, d) left to right into a fresh dict", ok)
+    # ---------------- get(key, default): a prefix that holds a scalar means "not there" too
+    gf = cfg.func("get") if "cfg" in dir() else ctx.model.module("dask/config.py").func("get")
+    hs = [h for t in ast.walk(gf) if isinstance(t, ast.Try) for h in t.handlers]
+    names = set()
+    for h in hs:
+        if isinstance(h.type, ast.Tuple):
+            names |= {unparse(e) for e in h.type.elts}
+        elif h.type is not None:
+            names.add(unparse(h.type))
+    ok = len(hs) == 1 and {"TypeError", "IndexError", "KeyError"} <= names
+    ctx.ob("EXC.get.default-on-scalar-prefix", gf, "config.get catches TypeError, IndexError and KeyError of result[k] and returns the default", ok, "" if ok else "indexing a scalar raises TypeError: get('a.b', default) raises instead of returning the default when 'a' holds a scalar")
+    # ---------------- collect_env: every DASK_* variable counts, also one set to the empty string
+    ce = ctx.model.module("dask/config.py").func("collect_env")
+    tests = [n for n in ast.walk(ce) if isinstance(n, ast.If) and "startswith" in unparse(n.test)]
+    ok = len(tests) == 1 and eqv(tests[0].test, "name.startswith('DASK_')")
+    ctx.ob("ALG.collect-env.all-vars", ce, "collect_env takes every variable whose name starts with DASK_ (no test on the value)", ok, "" if ok else "an empty-valued DASK_* variable is dropped: it no longer overrides the YAML/inherited value with ''")
 
 
 VARIANTS = [
